@@ -90,5 +90,71 @@ pub fn cmd_enc(a: &Args) {
         }
         lines
     });
-    util::write_lines(&out, res.into_iter().flatten());
+    let mut all_lines: Vec<String> = res.into_iter().flatten().collect();
+    // huge frameworks (65 540 .. 131 080 arguments, ids above 2^16 and 2^17): 8-12 core arguments with low and high ids carry random
+    // attacks, every other argument is isolated (hence in every complete / stable extension: product theorem).  The judge gets the core
+    // framework and the models projected on it, plus the harness' own observation that every isolated argument is true in every model.
+    let nhuge = a.num("huge", 0);
+    if nhuge > 0 {
+        use rand::{Rng, SeedableRng};
+        let seed = a.num("seed", 1) as u64;
+        let jobs: Vec<usize> = (0..nhuge).collect();
+        let res = util::par_map(jobs, threads.min(4), |i| {
+            util::install_quiet_panic_hook();
+            let mut rng = rand::rngs::StdRng::seed_from_u64(seed.wrapping_mul(7919).wrapping_add(*i as u64));
+            let n = [65_540usize, 70_000, 131_080][*i % 3];
+            let mut core: Vec<usize> = vec![0, 1, 2, 3, 65_536, 65_537, 65_538, 65_539];
+            if n > 131_076 {
+                core.extend([131_072, 131_073, 131_074, 131_075]);
+            }
+            let labels: Vec<usize> = (1..=n).collect();
+            let mut af = crustabri::aa::AAFramework::new_with_argument_set(crustabri::aa::ArgumentSet::new_with_labels(&labels));
+            let mut att: Vec<Vec<usize>> = vec![];
+            for x in &core {
+                for y in &core {
+                    if x != y && rng.gen_bool(0.3) {
+                        af.new_attack(&(x + 1), &(y + 1)).unwrap();
+                        att.push(vec![x + 1, y + 1]);
+                    }
+                }
+            }
+            let core_labels: Vec<usize> = core.iter().map(|x| x + 1).collect();
+            let mut lines = vec![json!({"ev": "af", "idx": 1_000_000 + i, "tag": "huge", "n": n, "args": core_labels, "att": att}).to_string()];
+            for enc in ["aux_co", "exp_co", "hybrid", "stable"] {
+                let e: Box<dyn ConstraintsEncoder<usize>> = if enc == "stable" { Box::<DefaultStableConstraintsEncoder>::default() } else { raw_encoder(enc) };
+                let r = catch_unwind(AssertUnwindSafe(|| {
+                    let ctl = Ctl::new(false, vec![]);
+                    let fac = obs::factory(&ctl);
+                    let mut solver = fac();
+                    e.encode_constraints(&af, solver.as_mut());
+                    let nvars = solver.n_vars();
+                    let lit_of = |id: usize| isize::from(e.arg_to_lit(af.argument_set().get_argument_by_id(id)));
+                    let argvar: Vec<isize> = core.iter().map(|id| lit_of(*id)).collect();
+                    let clauses: Vec<Vec<isize>> = ctl.borrow().log.iter().filter_map(|x| if let Ent::Clause(_, c) = x { Some(c.clone()) } else { None }).collect();
+                    let (models, cut) = obs::all_models(&clauses, &[], 64, nvars);
+                    let mut projs: BTreeSet<Vec<usize>> = BTreeSet::new();
+                    let mut fillers_ok = true;
+                    let is_core: std::collections::HashSet<usize> = core.iter().cloned().collect();
+                    let all_lits: Vec<isize> = (0..n).map(lit_of).collect();
+                    for m in &models {
+                        let val = |l: isize| { let v = l.unsigned_abs(); let b = v >= 1 && v <= m.len() && m[v - 1]; if l > 0 { b } else { !b } };
+                        projs.insert(core.iter().filter(|id| val(all_lits[**id])).map(|id| id + 1).collect());
+                        fillers_ok &= (0..n).all(|id| is_core.contains(&id) || val(all_lits[id]));
+                    }
+                    let empty: Vec<usize> = vec![];
+                    json!({"ev": "enc", "encoder": enc, "range": false, "core_n": 0, "nvars": nvars, "argvar": argvar, "rangevar": [], "huge_n": n, "fillers_ok": fillers_ok,
+                        "nclauses": clauses.len(), "clauses": [], "with_clauses": false,
+                        "models": projs.iter().map(|s| json!([s, empty])).collect::<Vec<_>>(), "nmodels": models.len(), "cut": cut, "panic": false})
+                }));
+                match r {
+                    Ok(v) => lines.push(v.to_string()),
+                    Err(_) => lines.push(json!({"ev": "enc", "encoder": enc, "range": false, "core_n": 0, "nvars": 0, "argvar": [], "rangevar": [], "huge_n": n, "fillers_ok": false,
+                        "nclauses": 0, "clauses": [], "with_clauses": false, "models": [], "nmodels": 0, "cut": false, "panic": true}).to_string()),
+                }
+            }
+            lines
+        });
+        all_lines.extend(res.into_iter().flatten());
+    }
+    util::write_lines(&out, all_lines.into_iter());
 }
